@@ -2,7 +2,7 @@
    A rendering of a token list interleaves separators (whitespace runs and ';' comments)
    with the tokens, each token in any letter case. *)
 From Coq Require Import List Ascii String Bool.
-From Verif Require Import Base.Str Base.Sexp Model.Tokenizer.
+From Verif Require Import Base.Result Base.Str Base.Sexp Model.Tokenizer.
 Import ListNotations.
 
 Definition atom_char (c : ascii) : bool :=
@@ -52,3 +52,12 @@ Fixpoint atoms_ok (e : sexp) : Prop :=
   | SList l => (fix go (l : list sexp) : Prop :=
                   match l with [] => True | x :: xs => atoms_ok x /\ go xs end) l
   end.
+
+(* The reader the property asks for: the whole token stream must be one form. *)
+Definition parse_tokens_strict (ts : list string) : result sexp :=
+  match rd (2 * List.length ts + 2) ts with
+  | Ok (e, []) => Ok e
+  | Ok (_, _ :: _) => Err ESyntax
+  | Err k => Err k
+  end.
+Definition parse_strict (m : mode) (s : text) : result sexp := parse_tokens_strict (tokenize m s).
